@@ -33,7 +33,7 @@ def big_file_case(ctx, binary):
 def run(ctx):
     binary = build.xcp()
     quick = ctx.tier == "quick"
-    maxl = 4 if quick else 6
+    maxl = 5 if quick else 6
     # ---- Layer A: exhaustive over layouts x block sizes x drivers x reflink x kernel counts x job orders
     r = dataplane.model_check(maxl)
     ctx.tlc("XcpData MaxL=%d (all layouts, block sizes, short counts, job orders, prior destinations)" % maxl, r)
